@@ -268,8 +268,8 @@ func tailS(s string, n int) string {
 
 var (
 	reBuildLoc  = regexp.MustCompile(`xgo_autogen\.go:(\d+):(\d+): `)
-	reHdrLit    = regexp.MustCompile(`^\s*(for|if|switch)\b.*[\w\]]\{.*\{$`)
-	reHdrClause = regexp.MustCompile(`^\s*(for|if|switch)\b`)
+	reHdrLit    = regexp.MustCompile(`^\s*(?:\} else )?(for|if|switch)\b.*[\w\]]\{.*\{$`)
+	reHdrClause = regexp.MustCompile(`^\s*(?:\} else )?(for|if|switch)\b`)
 )
 
 // buildErrSig names the site of a Go build failure: syntax errors on a statement header that holds a composite
